@@ -7,6 +7,9 @@ for m in sorted(glob.glob(os.path.join(os.path.dirname(os.path.dirname(os.path.a
     ev = d.get("evaluations") or []
     last = ev[-1] if ev else {}
     sid = os.path.basename(os.path.dirname(m))
+    if d.get("neutralised_by"):
+        rows.append((sid, "detected: no longer a breaking change (neutralised by repair %s)" % d["neutralised_by"]["commit"], last.get("repo_head", ""), last.get("at", "")))
+        continue
     if not last:
         rows.append((sid, "never evaluated", "", ""))
         continue
@@ -16,6 +19,7 @@ for m in sorted(glob.glob(os.path.join(os.path.dirname(os.path.dirname(os.path.a
     det = last.get("detected_by") or [k.split("/")[0] for k, v in (last.get("checks") or {}).items() if v.get("detected")]
     rows.append((sid, "detected by " + ",".join(sorted(set(det))) if det else "MISSED", last.get("repo_head", ""), last.get("at", "")))
 bad = [r for r in rows if not r[1].startswith("detected")]
-print("%d seeded changes, %d detected in their latest evaluation" % (len(rows), len(rows) - len(bad)))
+neutral = [r for r in rows if "neutralised" in r[1]]
+print("%d seeded changes, %d detected in their latest evaluation, %d of the others neutralised by a later repair of /repo" % (len(rows), len(rows) - len(bad) - len(neutral), len(neutral)))
 for r in bad:
     print("  %-22s %-24s head=%s at=%s" % r)
